@@ -9,7 +9,7 @@ import (
 )
 
 func ribCfgFor(r *rand.Rand, tier string) *RibCfg {
-	cfg := &RibCfg{Fwd: r.IntN(4) != 0, Pools: DefaultPools(), Steps: 40, WFlush: 40, DupNH: true, BigLabel: true, Malformed: 60}
+	cfg := &RibCfg{Resolved: r.IntN(2) == 0, Fwd: r.IntN(4) != 0, Pools: DefaultPools(), Steps: 40, WFlush: 40, DupNH: true, BigLabel: true, Malformed: 60}
 	if tier == "thorough" {
 		cfg.Steps = 60
 	}
@@ -121,7 +121,7 @@ func ribCorpus() []*CaseSpec {
 	A, R, D := spb.AFTOperation_ADD, spb.AFTOperation_REPLACE, spb.AFTOperation_DELETE
 	ni2 := Step{Kind: "addni", NI: "VRF1"}
 	hook := Step{Kind: "sethook"}
-	fwd := &RibCfg{Fwd: true, Pools: p}
+	fwd := &RibCfg{Fwd: true, Pools: p, Resolved: true}
 	nofwd := &RibCfg{Fwd: false, Pools: p}
 	return []*CaseSpec{
 		// REPLACE queued behind a missing group, then DELETE, then the group arrives
@@ -168,5 +168,5 @@ func init() {
 	props["C01"] = &PropSpec{Mode: "rib", Diffs: ribDiffs, Monitors: []string{"c01"}}
 	props["C02"] = &PropSpec{Mode: "rib", Diffs: []string{"add.", "pend"}, Monitors: []string{"c02"}}
 	props["C03"] = &PropSpec{Mode: "rib", Diffs: []string{"refs", "del."}, Monitors: []string{"c03"}}
-	props["C16"] = &PropSpec{Mode: "rib", Diffs: []string{"hooks"}, Monitors: []string{"c16"}}
+	props["C16"] = &PropSpec{Mode: "rib", Diffs: []string{"hooks", "resolved"}, Monitors: []string{"c16"}}
 }
